@@ -676,12 +676,15 @@ def run_filter(spec, res):
             m["n"] = j
             msgs.append(m)
         data = "".join(json.dumps(m, ensure_ascii=rng.random() < 0.5) + "\n" for m in msgs).encode("utf-8")
-        mode = rng.choice(["identity", "skip_odd", "skip_type", "field", "datetime", "missing_field", "falsy", "nested_datetime", "text", "tuple"])
+        mode = rng.choice(["identity", "skip_odd", "skip_type", "field", "datetime", "missing_field", "falsy", "nested_datetime", "text", "tuple", "genexp", "lambda", "comprehension_skip"])
         expr = {"identity": "J", "skip_odd": "SKIP if J['n'] % 2 else J", "skip_type": "SKIP if 'action_type' in J else J",
                 "field": "J['task_level']", "datetime": "datetime.utcfromtimestamp(0) + timedelta(seconds=J['n'])",
                 "missing_field": "J.get('no_such_field_zz')", "falsy": "[None, 0, '', [], {}, False][J['n'] % 6]",
                 "nested_datetime": "{'when': [datetime(2020, 2, 29, 12, 0, J['n'] % 60)], 'n': J['n'], 'd': timedelta(minutes=J['n']).total_seconds()}",
-                "text": "J.get('message_type') or 'none-\u00e9\U0001f600'", "tuple": "(J['n'], J['task_uuid'], SKIP is SKIP)"}[mode]
+                "text": "J.get('message_type') or 'none-\u00e9\U0001f600'", "tuple": "(J['n'], J['task_uuid'], SKIP is SKIP)",
+                # expressions whose sub-expressions have a scope of their own (generator expressions, lambdas, comprehensions)
+                "genexp": "sorted(k for k in J if isinstance(J[k], (int, str)))", "lambda": "sorted(J, key=lambda k: (len(k), k))[:3] + [(lambda: J['n'])()]",
+                "comprehension_skip": "SKIP if any(J['n'] % d == 0 for d in (2, 3)) else [timedelta(seconds=s).total_seconds() for s in range(J['n'] % 3)]"}[mode]
         env = dict(os.environ, PYTHONPATH=REPO, PYTHONIOENCODING="utf-8", PYTHONWARNINGS="ignore")
         try:
             p = subprocess.run([sys.executable, "-m", "eliot.filter", expr], input=data, capture_output=True, env=env, timeout=120)
@@ -712,6 +715,12 @@ def run_filter(spec, res):
             want = [m.get("message_type") or "none-\u00e9\U0001f600" for m in msgs]
         elif mode == "tuple":
             want = [[m["n"], m["task_uuid"], True] for m in msgs]
+        elif mode == "genexp":
+            want = [sorted(k for k in m if isinstance(m[k], (int, str))) for m in msgs]
+        elif mode == "lambda":
+            want = [sorted(m, key=lambda k: (len(k), k))[:3] + [m["n"]] for m in msgs]
+        elif mode == "comprehension_skip":
+            want = [[float(s_) for s_ in range(m["n"] % 3)] for m in msgs if not any(m["n"] % d == 0 for d in (2, 3))]
         else:
             want = [(datetime.datetime(1970, 1, 1) + datetime.timedelta(seconds=m["n"])).isoformat() for m in msgs]
         got = []
